@@ -245,6 +245,14 @@ def r08_4(ctx):
         got = n.key(node)
         w = Norm(None).key(ast.parse(text, mode="eval").body)
         ctx.check(got == w, "sampler %s" % nm, detail=why, expected=w, found=got, fi=f, node=fc[0], sample={nm: got[:160]})
+    # algebraic argument: NaN without coefficients, else the same lookup index into the algebraic blocks (their own width)
+    SZ = "self._method.poly_coeff_z[0].shape[1]"
+    zdefs = [d for d in sc.defs.get(ast.unparse(ez), [])] if isinstance(ez, ast.Name) else []
+    zvals = [d.value for d in zdefs if d.kind == "assign" and ast.unparse(d.value) != "nan"]
+    wz = Norm(None).key(ast.parse("mtimes(hcat(self._method.poly_coeff_z)[:, {i}*{s}+DM(range({s})).T], constpow(t-{time}[{i}], range({s})))".format(i=IDX, s=SZ, time=TIME), mode="eval").body)
+    gotz = n.key(zvals[0]) if len(zvals) == 1 else None
+    ctx.check(len(zdefs) == 2 and gotz == wz, "sampler algebraic argument", detail="algebraic coefficient block and local-time origin selected by the same lookup index, block width of the algebraic polynomial; ascending powers",
+              expected=wz, found=gotz, fi=f, node=fc[0], sample={"algebraic argument": (gotz or "")[:160]})
     ef = d1("expr_f")
     ok = ef is not None and key(ef) == key(ast.parse("Function('expr', [self.t, self.x, self.z, self.u], exprs)", mode="eval").body)
     ctx.check(ok, "sampler expression function takes (t, x, z, u) in that order", detail="argument order of the expression function", expected="Function('expr', [self.t, self.x, self.z, self.u], exprs)", found=key(ef), fi=f)
